@@ -66,6 +66,7 @@ type File struct {
 	Top    []Item  `json:"top,omitempty"` // top-level body (root template), non-blank when present
 	Blocks []Block `json:"blocks,omitempty"`
 	Sep    string  `json:"sep,omitempty"` // white space written after every block
+	Pad    int     `json:"pad,omitempty"` // a comment action of this many bytes is written before the blocks (large template files)
 	Raw    string  `json:"raw,omitempty"` // literal content (only for files whose extension does not match)
 	// Broken marks a MATCHING file that the loader must refuse: "syntax" (unterminated action) or
 	// "empty" (zero bytes). Only in the consistency-only kind "loose" and in "conc".
@@ -114,7 +115,7 @@ var defNames = []string{"a", "b", "c", "d", "e", "x y", "ü"}
 
 var layoutPool = []string{"default", "admin", "a", "a:b"}
 var viewPool = []string{"home", "about", "c", "b:c", "user/profile", "user/list"}
-var dirPool = []string{"", "", "", "sub", "sub/deep", "d{ext}"}
+var dirPool = []string{"", "", "", "", "sub", "sub/deep", "d{ext}", "sub", ".partials", "sub/.hidden"}
 var sepPool = []string{"", "", "\n", " \n"}
 var otherExt = []string{".txt", "OTHER", "EXT~", "", ".tmpl"}
 var htmlBits = []string{"", "", "", "<b>x</b>", "&amp;", "<i>", "</i>"}
@@ -198,6 +199,10 @@ func genLayer(rt *rapid.T, layer, owner, tag string, defPct, topPct, maxFiles in
 	for _, f := range files {
 		if len(f.Blocks) == 0 && len(f.Top) == 0 {
 			continue // an empty template file is refused by the loader on purpose: not generated
+		}
+		if len(f.Blocks) > 0 && hx.Chance(rt, 3, "bigfile") {
+			// a large template file: the definitions start beyond 64 KiB / 128 KiB or straddle the boundary
+			f.Pad = []int{65536 - 40 + hx.Uniform(rt, 60, "padlo"), 70000, 131072 - 40 + hx.Uniform(rt, 60, "padhi")}[hx.Uniform(rt, 3, "padkind")]
 		}
 		out = append(out, f)
 	}
@@ -602,6 +607,9 @@ func (f File) content() string {
 	}
 	var b strings.Builder
 	b.WriteString(itemsText(f.Top))
+	if f.Pad > 0 {
+		b.WriteString("{{/*" + strings.Repeat("x", f.Pad) + "*/}}")
+	}
 	for _, bl := range f.Blocks {
 		b.WriteString("{{define " + strconv.Quote(bl.Name) + "}}" + itemsText(bl.Body) + "{{end}}" + f.Sep)
 	}
@@ -685,6 +693,9 @@ func validateDomain(files []File, dom domain) error {
 		}
 		if strings.TrimSpace(f.Sep) != "" {
 			return fmt.Errorf("file %s: separator not white space", p)
+		}
+		if f.Pad < 0 || f.Pad > 1<<20 {
+			return fmt.Errorf("file %s: pad %d", p, f.Pad)
 		}
 		k := lk{f.Layer, f.Owner}
 		if seen[k] == nil {
@@ -1364,6 +1375,12 @@ func classify(c Case, m *model, v *hx.Verdict) {
 		}
 		if f.Dir != "" {
 			labels["nested-dir"] = true
+		}
+		if f.matches() && (strings.HasPrefix(f.Dir, ".") || strings.Contains(f.Dir, "/.")) {
+			labels["template-file-in-a-dot-directory"] = true
+		}
+		if f.matches() && f.Pad > 65000 {
+			labels["template-file-larger-than-64KiB"] = true
 		}
 		if !f.matches() {
 			labels["non-matching-ext"] = true
